@@ -78,36 +78,9 @@ def guard_correspondence(ctx, cases, res):
     ctx.dist("guard_cases_with_refused_entries", refused)
 
 
-def fs_bindings(tree):
-    """snapshot of a directory -> [(components, node)] for everything below it"""
-    out = []
-
-    def rec(node, comps):
-        for nm in sorted(node.get("c", {})):
-            ch = node["c"][nm]
-            q = comps + [nm]
-            out.append((q, ch))
-            if ch["k"] == "d":
-                rec(ch, q)
-    if tree:
-        rec(tree, [])
-    return out
-
-
 def dest_correspondence(ctx, cases, res):
     """Dest.restore_into on (what the destination held, the listing restored, overwrite) vs what restore left there and reported."""
-    from .. import common
-    from ..common import gallina_str, gallina_list, gallina_opt
-
-    def gnode(n):
-        if n["k"] == "d":
-            return "NDir"
-        if n["k"] == "l":
-            return "(NLink " + gallina_str(n["target"]) + ")"
-        return "(NFile " + gallina_str(bytes.fromhex(n.get("data", ""))) + ")"
-
-    def gfs(tree):
-        return gallina_list(["(" + gallina_list([gallina_str(c) for c in q]) + "," + gnode(n) + ")" for q, n in fs_bindings(tree)])
+    from .. import destmodel
     rows, meta = [], []
     for c in cases:
         r = res.get(c["id"])
@@ -119,47 +92,24 @@ def dest_correspondence(ctx, cases, res):
         refused = rs.get("result") != "ok"
         if refused and "DestinationNotEmpty" not in json.dumps(rs.get("err")):
             continue
-        content = scen.tree_file_bytes(c["rtree"])
-        ents = []
-        for e in ls["value"]:
-            k = KCODE.get(e["kind"], 3)
-            ents.append("(mk " + gallina_str(e["apath"]) + " " + str(k) + " " + gallina_str(content.get(e["apath"], b"") if k == 0 else b"") + " "
-                        + gallina_opt(e.get("target"), gallina_str) + ")")
         overwrite = bool(c["steps"][-3].get("overwrite"))
         nerr = len(rs.get("monitor_errors") or [])
-        rows.append("(" + ("true" if overwrite else "false") + ", " + gfs(dbefore.get("tree")) + ", " + gallina_list(ents) + ", " + gfs(dafter.get("tree"))
-                    + ", " + str(nerr) + ", " + ("true" if refused else "false") + ")")
+        whole = "subtree" not in c["steps"][-3]
+        rows.append(destmodel.row(overwrite, dbefore.get("tree"), ls["value"], scen.tree_file_bytes(c["rtree"]), dafter.get("tree"), nerr, refused, whole))
         meta.append((c, overwrite, nerr, refused))
     if not rows:
         return
-    body = ("From CV Require Import Base.Str Apath Entry Valid Dest DestP.\nLocal Open Scope N_scope.\n"
-            "Definition mk (p : str) (k : N) (c : bytes) (t : option str) : entry := {| e_apath := p; e_kind := (if N.eqb k 0 then KFile else if N.eqb k 1 "
-            "then KDir else if N.eqb k 2 then KSymlink else KUnknown); e_mtime := 0%Z; e_nanos := 0; e_mode := 420; e_user := None; e_group := None; "
-            "e_addrs := [{| a_hash := c; a_start := 0; a_len := 0 |}]; e_target := t |}.\n"
-            "Definition cof (e : entry) : bytes := concat (map a_hash (e_addrs e)).\n"
-            "Definition node_eqb (a b : node) : bool := match a, b with NDir, NDir => true | NFile x, NFile y => str_eqb x y "
-            "| NLink x, NLink y => str_eqb x y | _, _ => false end.\n"
-            "Definition fs_sub (f g : fs) : bool := forallb (fun b => match lookup g (fst b) with Some n => node_eqb n (snd b) | None => false end) f.\n"
-            "Definition one (c : bool * fs * list entry * fs * N * bool) : N := let '(ow, f0, es, f1, nerr, refused) := c in "
-            "if negb (tree_likeb f0) then 6 else "
-            "match restore_into cof ow f0 es with None => if refused then 0 else 4 | Some s => if refused then 5 else "
-            "if negb (N.eqb (d_esc s) 0) then 3 else if negb (fs_sub (d_fs s) f1 && fs_sub f1 (d_fs s)) then 1 else if N.eqb (d_errs s) nerr then 0 else 2 end.\n"
-            "Definition cs : list (bool * fs * list entry * fs * N * bool) := " + gallina_list(rows) + ".\n"
-            "Eval vm_compute in map one cs.\n")
-    ok, txt = common.coq_eval("C16_dest", body, 1800)
-    blocks = common.parse_eval_blocks(txt)
-    if not ok or not blocks:
-        ctx.corr_fail("L2", "Dest.restore_into evaluation failed: " + txt[-500:], {})
+    nums, txt = destmodel.evaluate("C16_dest", rows)
+    if nums is None:
+        ctx.corr_fail("L2", "Dest.restore_into evaluation failed: " + txt, {})
         return
-    nums = common.parse_nums(blocks[0].split("%")[0].split(":")[0])
     agreed = 0
     for (c, overwrite, nerr, refused), code in zip(meta, nums):
         if code == 0:
             agreed += 1
             ctx.dist("dest_model_" + ("overwrite" if overwrite else ("refused" if refused else "fresh")) + ("_with_errors" if nerr else ""))
         else:
-            ctx.corr_fail("L2", f"Dest.restore_into and restore differ (code {code}: 1 = what the destination holds afterwards, 2 = number of errors "
-                                f"reported (real {nerr}), 3 = the model resolved a path through a symlink, 4/5 = refusal, 6 = the destination before the restore does not meet the theorems' premise tree_like) overwrite={overwrite}",
+            ctx.corr_fail("L2", f"Dest.restore_into and restore differ (code {code}: {destmodel.CODES}; real errors {nerr}) overwrite={overwrite}",
                           {"steps": c["steps"]})
     ctx.layer("L2-destination", agreed, len(meta))
 
